@@ -142,7 +142,7 @@ func run(k *kase) {
 	}
 }
 
-var cpuCorpus = []float64{0.29, 0.57, 0.58, 1.13, 1.15, 2.01, 4.35, 8.2, 16.4, 1.1, 0.07, 0.14, 0.55, 1, 2, 0.5, 0, -1, 1.005, 0.001, 0.00001, 100.29, 1e-9}
+var cpuCorpus = []float64{1e13, 9.3e13, 1e15, 0.29, 0.57, 0.58, 1.13, 1.15, 2.01, 4.35, 8.2, 16.4, 1.1, 0.07, 0.14, 0.55, 1, 2, 0.5, 0, -1, 1.005, 0.001, 0.00001, 100.29, 1e-9}
 
 func genCPU(r *hx.Rng) float64 {
 	switch r.Intn(10) {
